@@ -1968,7 +1968,7 @@ int cgio_write_block_data (int cgio_num, double id,
     int ierr;
     cgns_io *cgio;
 
-    if ((cgio = get_cgnsio(cgio_num, 0)) == NULL)
+    if ((cgio = get_cgnsio(cgio_num, 1)) == NULL)
         return get_error();
 
     if (cgio->type == CGIO_FILE_ADF || cgio->type == CGIO_FILE_ADF2) {
